@@ -3,9 +3,10 @@
 
   * `allow_semantics`, `ignore_semantics`, `verdict_rule`   the verdict is the documented rule over the candidate names
   * `candidates_cover_destinations`                          server address, Host header and SNI are candidates
-  * `host_header_agrees_with_spec`                           regex scanner = RFC 9112 field syntax on every well-formed CRLF head
+  * `host_header_agrees_mixed`                               regex scanner = RFC 9112 field syntax on every well-formed head, each line
+                                                             ended by CRLF or bare LF in any mixture; `host_header_agrees_with_spec`
+                                                             (CRLF), `host_header_eol_partial` (uniform), `host_header_bare_lf` are instances
   * `host_header_any_method_partial` / `_counterexample`     any token method: `HostHeaderAgreesAnyMethod` is FALSE (F-C19c)
-  * `host_header_eol_partial`, `host_header_bare_lf_counterexample`   bare-LF line ends: `HostHeaderAgreesBareLf` is FALSE (F-C19d)
   * `host_header_prefix_stable`, `decision_prefix_stable`    an answer on a prefix is final (TCP)
   * `decision_seg_independent_partial` / `_counterexample`   full statement `DecisionSegIndependent` is FALSE for the current
                                                              code (finding F-C19b); proved outside that class
@@ -102,23 +103,61 @@ theorem candidates_cover_destinations {Pat : Type} (E : Env Pat) (c : Cfg Pat) (
 
 /-! ## the Host header: implementation scanner = specification -/
 
-/-- **host_header_agrees_with_spec** — for EVERY request head in RFC 9112 field syntax (a request line the first regex
-    recognises, any number of field lines `name ":" OWS value OWS` with token names, SP/HTAB in any amount on both sides
-    of the value, the Host field at any position, in any letter case, possibly empty or repeated), followed by ANY bytes,
-    `_get_host_header` returns the value of the first Host field (none if absent or empty). -/
-theorem host_header_agrees_with_spec (reqLine : Bytes) (fs : List Field) (rest : Bytes)
-    (hrl : expected reqLine = true) (hcr : CR ∉ reqLine) (hw : ∀ f ∈ fs, f.WF) :
-    hostHeader true (renderHead reqLine fs ++ rest) [] = .ok (specHost fs) := by
-  have he : expected (renderHead reqLine fs ++ rest) = true := by
-    have := expected_append_true reqLine (CR :: LF :: (fs.flatMap Field.render ++ [CR, LF]) ++ rest) hrl
-    simpa [renderHead, List.append_assoc] using this
+/-- **host_header_agrees_mixed** — the general statement.  For EVERY request head in RFC 9112 field syntax — a request
+    line the first regex recognises, any number of field lines `name ":" OWS value OWS` with token names, SP/HTAB in any
+    amount on both sides of the value, the Host field at any position, in any letter case, possibly empty or repeated —
+    where EACH line (request line, every field line, the blank line) is ended by CRLF or by a bare LF in any mixture
+    (RFC 9112 §2.2), followed by ANY bytes, `_get_host_header` returns the value of the FIRST Host field (none if absent or
+    empty). -/
+theorem host_header_agrees_mixed (reqLine : Bytes) (rlLf : Bool) (fs : List (Field × Bool)) (endLf : Bool)
+    (rest : Bytes) (hrl : expected reqLine = true) (hlf : LF ∉ reqLine) (hw : ∀ p ∈ fs, p.1.WF) :
+    hostHeader true (renderHeadMixed reqLine rlLf fs endLf ++ rest) [] = .ok (specHost (fs.map (·.1))) := by
+  have he : expected (renderHeadMixed reqLine rlLf fs endLf ++ rest) = true := by
+    have := expected_append_true reqLine
+      (eol rlLf ++ (fs.flatMap (fun p => p.1.body ++ eol p.2) ++ eol endLf) ++ rest) hrl
+    simpa [renderHeadMixed, List.append_assoc] using this
   unfold hostHeader
   simp only [Bool.not_true, List.isEmpty_nil, Bool.or_self, Bool.false_eq_true, if_false, he, if_true]
-  have hform : renderHead reqLine fs ++ rest
-      = reqLine ++ CR :: LF :: (fs.flatMap Field.render ++ CR :: LF :: rest) := by
-    simp [renderHead, List.append_assoc]
-  rw [hform, scan_skip reqLine _ hcr]
-  exact atLine_fields fs hw rest
+  have hform : renderHeadMixed reqLine rlLf fs endLf ++ rest
+      = reqLine ++ (eol rlLf ++ (fs.flatMap (fun p => p.1.body ++ eol p.2) ++ (eol endLf ++ rest))) := by
+    simp [renderHeadMixed, List.append_assoc]
+  rw [hform, scan_skip_eol rlLf reqLine _ hlf]
+  exact atLine_fields fs hw endLf rest
+
+private theorem flatMap_tag (lf : Bool) (fs : List Field) :
+    (fs.map (fun f => (f, lf))).flatMap (fun p => p.1.body ++ eol p.2) = fs.flatMap (fun f => f.body ++ eol lf) := by
+  induction fs with
+  | nil => rfl
+  | cons f fs ih => simp [ih]
+
+private theorem map_tag (lf : Bool) (fs : List Field) : (fs.map (fun f => (f, lf))).map (·.1) = fs := by
+  induction fs with
+  | nil => rfl
+  | cons f fs ih => simp only [List.map_cons, ih]
+
+/-- **host_header_eol_partial** — (name kept from the round in which only the CRLF instance held) the statement for heads
+    whose lines all end the same way, CRLF (`lf = false`) or bare LF (`lf = true`). -/
+theorem host_header_eol_partial (lf : Bool) (reqLine : Bytes) (fs : List Field) (rest : Bytes)
+    (hrl : expected reqLine = true) (hlf : LF ∉ reqLine) (hw : ∀ f ∈ fs, f.WF) :
+    hostHeader true (renderHeadEol lf reqLine fs ++ rest) [] = .ok (specHost fs) := by
+  have h := host_header_agrees_mixed reqLine lf (fs.map (fun f => (f, lf))) lf rest hrl hlf
+    (by intro p hp; obtain ⟨f, hf, rfl⟩ := List.mem_map.mp hp; exact hw f hf)
+  rw [map_tag] at h
+  have : renderHeadMixed reqLine lf (fs.map (fun f => (f, lf))) lf = renderHeadEol lf reqLine fs := by
+    simp [renderHeadMixed, renderHeadEol, flatMap_tag, List.append_assoc]
+  rw [this] at h
+  exact h
+
+/-- **host_header_agrees_with_spec** — the CRLF instance: for EVERY well-formed head with CRLF line ends followed by ANY
+    bytes, `_get_host_header` returns the value of the first Host field (none if absent or empty). -/
+theorem host_header_agrees_with_spec (reqLine : Bytes) (fs : List Field) (rest : Bytes)
+    (hrl : expected reqLine = true) (hlf : LF ∉ reqLine) (hw : ∀ f ∈ fs, f.WF) :
+    hostHeader true (renderHead reqLine fs ++ rest) [] = .ok (specHost fs) := by
+  have : renderHead reqLine fs = renderHeadEol false reqLine fs := by
+    have hr : (fun f : Field => f.body ++ [CR, LF]) = Field.render := rfl
+    simp [renderHeadEol, renderHead, eol, hr]
+  rw [this]
+  exact host_header_eol_partial false reqLine fs rest hrl hlf hw
 
 example : expected [0x47, 0x45, 0x54, 0x20, 0x2f, 0x20, 0x48, 0x54, 0x54, 0x50, 0x2f, 0x31, 0x2e, 0x31] = true := by decide
 /-- `hOsT:` TAB `a.b` SP after another field: the hypotheses are satisfiable and the result is the value -/
@@ -155,7 +194,7 @@ theorem host_header_any_method_partial (a b c : UInt8) (m target : Bytes) (fs : 
   have hal : ∀ y : UInt8, isAlpha y = true → isTchar y = true := fun y hy => by simp [isTchar, hy]
   apply host_header_agrees_with_spec _ fs rest
   · simpa using expected_of_request_line a b c m target [] ha hb hc hm ht'
-  · apply requestLine_no_cr _ _ _ ht'
+  · apply requestLine_no_lf _ _ _ ht'
     intro x hx
     simp only [List.mem_cons] at hx
     rcases hx with e | e | e | e
@@ -176,32 +215,21 @@ theorem host_header_any_method_counterexample : ¬ HostHeaderAgreesAnyMethod := 
   decide
 
 /-- The statement for heads whose lines end in a bare LF (RFC 9112 §2.2 "MAY recognize a single LF as a line terminator";
-    mitmproxy's own HTTP/1 reader does).  FALSE for the current code (F-C19d): the scan only knows CRLF, see
-    `_counterexample`. -/
+    mitmproxy's own HTTP/1 reader does).  It was FALSE before fix 801640255 (F-C19d: the scan only knew CRLF and asked for
+    more data for ever); it is proved now. -/
 def HostHeaderAgreesBareLf : Prop :=
   ∀ (reqLine : Bytes) (fs : List Field) (rest : Bytes),
     expected reqLine = true → CR ∉ reqLine → LF ∉ reqLine → (∀ f ∈ fs, f.WF) →
     hostHeader true (renderHeadEol true reqLine fs ++ rest) [] = .ok (specHost fs)
 
-/-- the CRLF instance of the same rendering is exactly what `host_header_agrees_with_spec` proves -/
-theorem host_header_eol_partial (reqLine : Bytes) (fs : List Field) (rest : Bytes)
-    (hrl : expected reqLine = true) (hcr : CR ∉ reqLine) (hw : ∀ f ∈ fs, f.WF) :
-    hostHeader true (renderHeadEol false reqLine fs ++ rest) [] = .ok (specHost fs) := by
-  have : renderHeadEol false reqLine fs = renderHead reqLine fs := by
-    have hr : (fun f : Field => f.body ++ [CR, LF]) = Field.render := rfl
-    simp [renderHeadEol, renderHead, eol, hr]
-  rw [this]
-  exact host_header_agrees_with_spec reqLine fs rest hrl hcr hw
+/-- **host_header_bare_lf** — the bare-LF statement holds for the repaired scan -/
+theorem host_header_bare_lf : HostHeaderAgreesBareLf :=
+  fun reqLine fs rest hrl _ hlf hw => host_header_eol_partial true reqLine fs rest hrl hlf hw
 
-/-- **host_header_bare_lf (counterexample)** — F-C19d: `GET / HTTP/1.1 LF Host: a LF LF`: HTTP (as mitmproxy's HTTP/1
-    reader applies it) defines Host = `a`; `_get_host_header` asks for more data for ever, so no verdict is ever taken. -/
-theorem host_header_bare_lf_counterexample : ¬ HostHeaderAgreesBareLf := by
-  intro h
-  have := h [0x47, 0x45, 0x54, 0x20, 0x2f, 0x20, 0x48, 0x54, 0x54, 0x50, 0x2f, 0x31, 0x2e, 0x31]
-    [⟨[0x48, 0x6f, 0x73, 0x74], [0x20], [0x61], []⟩] [] (by decide) (by decide) (by decide)
-    (by intro f hf; simp only [List.mem_cons, List.mem_nil_iff, or_false] at hf; subst hf; exact hostFieldWF)
-  revert this
-  decide
+/-- mixed line ends read the FIRST Host field: `GET / HTTP/1.1 LF Host: a LF X: b CRLF Host: c CRLF CRLF` gives `a` -/
+example : hostHeader true (renderHeadMixed [0x47, 0x45, 0x54, 0x20, 0x2f, 0x20, 0x48, 0x54, 0x54, 0x50, 0x2f, 0x31] true
+      [(⟨[0x48, 0x6f, 0x73, 0x74], [0x20], [0x61], []⟩, true), (⟨[0x58], [0x20], [0x62], []⟩, false),
+       (⟨[0x48, 0x6f, 0x73, 0x74], [0x20], [0x63], []⟩, false)] false) [] = .ok (some [0x61]) := by decide
 
 /-- **host_header_prefix_stable** — an answer of `_get_host_header` on a prefix that does not end inside the request
     line is its answer on every extension. -/
